@@ -35,6 +35,22 @@ def spine_config(name, wins, maxd, opsel, poolsel, quants=QUANTS_SMALL, names=('
                       'Strs': set(tuple(x) for x in strs), 'SemLen': semlen})
 
 
+SEM_INV = {'C04': ['BoundsExact', 'GreedyLazyPreference', 'SpellingsAgree', 'BadBoundsRejected'], 'C01': ['LiteralDenotation'],
+           'C08': ['GroupingPreservesLanguage'], 'C05': ['EmptyNeutralSem']}
+
+
+def sem_config(prop, tier):
+    """Model-level theorems of the property on the reference semantics (MC_Sem), no replay."""
+    inv = SEM_INV[prop]
+    hi = 4 if tier == 'quick' else 5
+    bounds = {(n, m) for n in range(0, hi) for m in list(range(0, hi)) + [-1] if m == -1 or n <= m}
+    if prop in ('C01',):
+        bounds = {(1, 1)}
+    return dict(name='MC_Sem ' + '+'.join(inv), module='MC_Sem', model_only=True, invariants=inv, workers=8,
+                cfg='SPECIFICATION Spec\n' + ''.join('INVARIANT %s\n' % i for i in inv) + 'CHECK_DEADLOCK FALSE\n',
+                defs={'SemWin': (97, 36) if prop == 'C01' else (97, 98), 'Bounds': bounds})
+
+
 FULL_POOL = {'empty', 'class', 'token', 'wb', 'alt', 'cat', 'quant', 'group', 'assert', 'pregex'}
 
 
@@ -203,7 +219,10 @@ def generic(prop, facets, rule, configs_fn, args_tier=None, seeds=(0,), mode='rr
     p.update(params or {})
     if callable(seeds):
         seeds = seeds(tier, seed)
-    res = run_generated(configs_fn(tier, seed), 'harness.judge_compose.judge', p, seeds=seeds, mode=mode)
+    cfgs = configs_fn(tier, seed)
+    if prop in SEM_INV:
+        cfgs = [sem_config(prop, tier)] + cfgs
+    res = run_generated(cfgs, 'harness.judge_compose.judge', p, seeds=seeds, mode=mode)
     st = res.agg.stats
     cov = {'states': res.states, 'transitions': res.transitions,
            'traces_validated_against_impl': st.get('cases', 0),
